@@ -190,6 +190,8 @@ def run_real(rig, sc, timeout=40):
         args.append("--no-capture")   # tests inherit stdout / stderr; timers, groups and signals as usual
     # direct_spawn: units are spawned without the double-spawn launcher (NEXTEST_DOUBLE_SPAWN=0)
     env_extra = {"NEXTEST_DOUBLE_SPAWN": "0"} if sc.get("direct_spawn") else {}
+    if sc.get("env"):
+        env_extra.update(sc["env"])     # extra variables in nextest's own environment
     if sc.get("message_format"):
         # a machine-readable message format: stdout and stderr of a unit are captured as one stream
         args += ["--message-format", sc["message_format"]]
